@@ -12,6 +12,8 @@ From Coq Require Import String Ascii.
 From Coq Require Import List NArith ZArith Bool Floats.
 From Pcfg Require Import ProbAlg F64 TextFile Counters Reader IoCorr TextFileProofs IoFacts.
 From PcfgGen Require Import Consts_gen.
+From Pcfg Require Import LoaderRt LoaderGenProofs.
+From PcfgGen Require Import Loader_gen.
 Import ListNotations.
 
 (* the classes probed from this interpreter have the shape the proofs rely on
@@ -87,7 +89,99 @@ Theorem C07_example :
   = Some [{| gvals := [[32; 97; 32]%N; [233; 128512]%N]; gprob := 0.5%float |}].
 Proof. vm_compute. reflexivity. Qed.
 
+(* ---- second tie to the source: gen/Loader_gen.v is the translation of the Python text of
+   lib_guesser/grammar_io.py _load_from_file (harness/translate_loader.py, redone on every run).
+   Called on an empty list it returns what the model reader the theorems above are about returns:
+   for every file (the lines the iteration yields: [copen] is codecs.open + line iteration, None =
+   IOError), every whitespace class, float() and codec (encodes the characters [encb] holds for,
+   reports [reason] otherwise).  [agrees r m]: r = Done (the model's groups, True), or r = Done
+   (what was read so far, False) where the model's load fails; an exception never escapes. *)
+Theorem C07_source_load_from_file_is_model :
+  forall (ws : N -> bool) (pfloat : pstr -> option float) (encb : N -> bool) (reason : pstr)
+         (copen : pstr -> pstr -> option pstr -> option (list pstr)) (lb : N -> bool) (filename encoding : pstr) (text : str),
+  copen filename encoding (Some surrogateescape) = Some (lines_keep lb text) ->
+  agrees (py_load_from_file F64ops ws pfloat (enc_of encb reason) copen [] filename encoding)
+         (load_guesser lb ws pfloat encb (onfail_of_reason reason) text).
+Proof. exact load_from_file_is_load_guesser. Qed.
+
+Theorem C07_source_load_from_file_no_file :
+  forall (ws : N -> bool) (pfloat : pstr -> option float) (encb : N -> bool) (reason : pstr)
+         (copen : pstr -> pstr -> option pstr -> option (list pstr)) gs (filename encoding : pstr),
+  copen filename encoding (Some surrogateescape) = None ->
+  py_load_from_file F64ops ws pfloat (enc_of encb reason) copen gs filename encoding = Done (gs, false).
+Proof. exact load_from_file_no_file. Qed.
+
+Theorem C07_source_load_from_file_never_raises :
+  forall (ws : N -> bool) (pfloat : pstr -> option float) (encb : N -> bool) (reason : pstr)
+         (copen : pstr -> pstr -> option pstr -> option (list pstr)) (filename encoding : pstr),
+  exists gs b, py_load_from_file F64ops ws pfloat (enc_of encb reason) copen [] filename encoding = Done (gs, b).
+Proof. exact load_from_file_total. Qed.
+
+(* C07_roundtrip_guesser restated over the translated function *)
+Theorem C07_roundtrip_guesser_translated :
+  forall (repr : float -> str) (pfloat : str -> option float) (encb : N -> bool) (reason : pstr)
+         (copen : pstr -> pstr -> option pstr -> option (list pstr)) (filename encoding : pstr) (l : list (str * float)),
+    Forall (fun it => safe (fst it) = true /\ float_ok repr pfloat (snd it)) l ->
+    Forall (fun it => forallb encb (write_line repr it) = true) l ->
+    Forall (fun it => okbF (snd it) = true) l ->
+    copen filename encoding (Some surrogateescape) = Some (lines_keep LB (write_file repr l)) ->
+    py_load_from_file F64ops WS pfloat (enc_of encb reason) copen [] filename encoding
+      = Done (map item_of (group_by_prob l), true)
+    /\ flat_map (@it_values float) (map item_of (group_by_prob l)) = map fst l.
+Proof. exact roundtrip_guesser_translated. Qed.
+
+(* the scorer's reader (lib_scorer/grammar_io.py _load_from_file), translated the same way, returns
+   exactly what the model reader returns: the counter as filled so far and True / False *)
+Theorem C07_source_scorer_load_from_file_is_model :
+  forall (ws : N -> bool) (pfloat : pstr -> option float) (encb : N -> bool) (reason : pstr)
+         (copen : pstr -> pstr -> option pstr -> option (list pstr)) (lb : N -> bool) (filename encoding : pstr) (text : str),
+  copen filename encoding (Some surrogateescape) = Some (lines_keep lb text) ->
+  py_scorer_load_from_file F64ops ws pfloat (enc_of encb reason) copen [] filename encoding =
+  Done (snd (load_scorer lb ws pfloat encb (onfail_of_reason reason) text),
+        fst (load_scorer lb ws pfloat encb (onfail_of_reason reason) text)).
+Proof. exact scorer_load_from_file_is_load_scorer. Qed.
+
+Theorem C07_source_scorer_load_from_file_no_file :
+  forall (ws : N -> bool) (pfloat : pstr -> option float) (encb : N -> bool) (reason : pstr)
+         (copen : pstr -> pstr -> option pstr -> option (list pstr)) d (filename encoding : pstr),
+  copen filename encoding (Some surrogateescape) = None ->
+  py_scorer_load_from_file F64ops ws pfloat (enc_of encb reason) copen d filename encoding = Done (d, false).
+Proof. exact scorer_load_from_file_no_file. Qed.
+
+(* C07_roundtrip_scorer restated over the translated function *)
+Theorem C07_roundtrip_scorer_translated :
+  forall (repr : float -> str) (pfloat : str -> option float) (encb : N -> bool) (reason : pstr)
+         (copen : pstr -> pstr -> option pstr -> option (list pstr)) (filename encoding : pstr) (l : list (str * float)),
+    Forall (fun it => safe (fst it) = true /\ float_ok repr pfloat (snd it)) l ->
+    Forall (fun it => forallb encb (write_line repr it) = true) l ->
+    NoDup (map fst l) ->
+    copen filename encoding (Some surrogateescape) = Some (lines_keep LB (write_file repr l)) ->
+    py_scorer_load_from_file F64ops WS pfloat (enc_of encb reason) copen [] filename encoding = Done (l, true).
+Proof. exact roundtrip_scorer_translated. Qed.
+
+(* the guesser's reader of Omen/omen_keyspace.txt (load_omen_keyspace), translated: rstrip, split on
+   TAB, int() of the first two fields, the dict filled in file order, nothing caught *)
+Theorem C07_source_load_omen_keyspace_is_spec :
+  forall (ws : N -> bool) (pint : pstr -> option Z) (sopen : pstr -> pstr -> option pstr -> option (list pstr))
+         (pjoin : list pstr -> pstr) (dir encoding : pstr),
+  py_load_omen_keyspace ws pint sopen pjoin dir encoding =
+  match sopen (pjoin [dir; omen_dir; omen_keyspace_txt]) encoding None with
+  | Some lines => keyspace_items ws pint lines []
+  | None => Fail EIO
+  end.
+Proof. exact load_omen_keyspace_eq. Qed.
+
+(* hypotheses satisfiable: the two-line file of C07_example through the translated reader *)
+Theorem C07_source_example :
+  py_load_from_file F64ops WS pf1 (enc_of (fun _ => true) []) (fun _ _ _ => Some (lines_keep LB (write_file rp1 [([32; 97; 32]%N, 0.5%float); ([233; 128512]%N, 0.5%float)]))) [] [] []
+  = Done ([{| it_values := [[32; 97; 32]%N; [233; 128512]%N]; it_prob := 0.5%float |}], true).
+Proof. vm_compute. reflexivity. Qed.
+
 Print Assumptions C07_roundtrip_guesser.
+Print Assumptions C07_source_load_from_file_is_model.
+Print Assumptions C07_roundtrip_guesser_translated.
+Print Assumptions C07_source_scorer_load_from_file_is_model.
+Print Assumptions C07_roundtrip_scorer_translated.
 Print Assumptions C07_roundtrip_scorer.
 Print Assumptions C07_roundtrip_omen_guesser.
 Print Assumptions C07_roundtrip_omen_scorer.
